@@ -25,6 +25,7 @@ struct Args {
     index: u64,
     label: String,
     watchdog: u64,
+    floor_scale: f64,
     extra: BTreeMap<String, String>,
 }
 
@@ -43,6 +44,7 @@ fn parse() -> Args {
         index: 0,
         label: "native".into(),
         watchdog: 300,
+        floor_scale: 1.0,
         extra: BTreeMap::new(),
     };
     let mut it = std::env::args().skip(1);
@@ -65,6 +67,8 @@ fn parse() -> Args {
             "--index" => a.index = val().parse().expect("index"),
             "--label" => a.label = val(),
             "--watchdog" => a.watchdog = val().parse().expect("watchdog"),
+            "--floor-scale" => a.floor_scale = val().parse().expect("floor scale"),
+            "--small" => rvmon::report::SMALL.store(true, std::sync::atomic::Ordering::SeqCst),
             s if s.starts_with("--x-") => {
                 let v = val();
                 a.extra.insert(s[4..].to_string(), v);
@@ -94,7 +98,7 @@ fn finish<M: Monitor>(m: &M, a: &Args, rep: Report, wall: f64, floor_applies: bo
         std::fs::write(&path, serde_json::to_string_pretty(&body).unwrap()).ok();
         vio_out.push(json!({"kind": v.kind, "detail": v.detail, "replay": path, "case_seed": v.case_seed}));
     }
-    let floor = if floor_applies { (m.floor(a.tier) as f64 * a.scale).floor() as u64 } else { 0 };
+    let floor = if floor_applies { (m.floor(a.tier) as f64 * a.scale * a.floor_scale).floor() as u64 } else { 0 };
     let mut inconclusive: Vec<String> = vec![];
     if (rep.nontrivial.len() as u64) < floor {
         inconclusive.push(format!(
